@@ -119,21 +119,28 @@ fn run_case(i: usize, case: &Value, obs: &str, out: &mut dyn FnMut(&Value)) {
             Outcome::Done(Err(e)) => ("err".to_string(), e, String::new()),
             Outcome::Panic { msg, loc } => ("panic".to_string(), msg, short_loc(&loc)),
         };
-        Ran { outcome, msg, loc, raw: g.accepted.clone(), write_calls: g.write_calls.clone(), flushes: g.flushes }
+        Ran { outcome, msg, loc, raw: g.accepted.clone(), write_calls: g.write_calls.clone(), continues: g.continues.clone(), flush_at: g.flush_at.clone(), flushes: g.flushes }
     };
     let read_err = case["script"]["kind"] == "read_error";
     out(&json!({"ev":"Read","ok":!read_err}));
     // constant-chunk scripts produce thousands of identical calls: the trace carries them run-length encoded
     let mut j = 0;
     let calls = &ran.write_calls;
+    // calls in the order the server made them: a flush is placed after the write calls that preceded it
+    let flush_err = case["script"]["kind"] == "flush_error";
+    let mut f = 0;
     while j < calls.len() {
+        while f < ran.flush_at.len() && ran.flush_at[f] <= j {
+            out(&json!({"ev":"Flush","ok":!flush_err}));
+            f += 1;
+        }
         let (off, acc) = calls[j];
-        out(&json!({"ev":"Write","offered":off,"accepted":acc}));
+        out(&json!({"ev":"Write","offered":off,"accepted":acc,"continues":ran.continues.get(j).copied().unwrap_or(true)}));
         j += 1;
     }
-    let flush_err = case["script"]["kind"] == "flush_error";
-    for _ in 0..ran.flushes {
+    while f < ran.flush_at.len() {
         out(&json!({"ev":"Flush","ok":!flush_err}));
+        f += 1;
     }
     let mut r = project(&ran.raw, obs);
     r["outcome"] = json!(ran.outcome);
